@@ -340,6 +340,18 @@ def r19_7(ctx, rep):
         raise MechanismMissing(R, "load_model no longer evaluates variable_metadata_function twice (parameter values and NaN probe)")
 
 
+@SPEC.rule(
+    "R19.8",
+    "a cached model is only served for the option set it was compiled with: load_model compares the stored (name, value) pairs "
+    "of the options with the current ones, unchanged, before any payload is used (same rule as R20.1, evaluated here because a "
+    "cache accepted for other option values is a cached model that differs from the fresh compile)",
+)
+def r19_8(ctx, rep):
+    from .c20 import cache_validity
+
+    cache_validity(ctx, rep, "R19.8")
+
+
 # -- seeded variants ---------------------------------------------------------
 from ._mut import delete_stmt_where, replace_in_func  # noqa: E402
 
